@@ -246,6 +246,26 @@ def run(ctx):
             ctx.violation("%s: read() keeps numbers %s..., expected %s..." % (fmt, got[:12], want[:12]),
                           {"fmt": fmt, "file": True}, cls="read-glue:%s" % fmt)
         ctx.case((fmt, "file"), True, branch="file")
+    # ... and full-resolution files of every transfer mode the LAC readers accept (LHRR / HRPT / FRAC, with the data type
+    # code real files of that mode carry: 1 / 3 / 13), numbered from anywhere in the admitted range: a gap-free pass is kept whole
+    for k in range(ctx.n(6, 24)):
+        rng = ctx.rng
+        fmt = rng.choice(["klmLac", "klmLac", "podLac"])
+        mode, code = rng.choice([("LHRR", 1), ("HRPT", 3), ("FRAC", 13)] if fmt == "klmLac" else [("LHRR", 1), ("HRPT", 3)])
+        n = 30
+        top = 65534 if fmt == "klmLac" else 32767
+        n0 = rng.choice([1, 14980, 15000, 20000, top - 2000, top - n + 1])
+        ln = np.arange(n0, n0 + n)
+        pb = filegen.PassBuilder(ctx, fmt, n, random.Random(repr((ctx.seed, fmt, "c11lac", k))), line_numbers=ln)
+        pb.mode = mode
+        pb.header_overrides["data_type_code"] = code
+        r = filegen.make_reader(ctx, fmt, data=pb.tobytes(), name=pb.dsname)
+        got = [int(x) for x in r.scans["scan_line_number"]]
+        if got != ln.tolist():
+            ctx.violation("%s file of transfer mode %s (data type code %d), gap-free lines %d..%d: read() keeps %d of %d records (%s...)" % (
+                fmt, mode, code, n0, n0 + n - 1, len(got), n, got[:5]), {"fmt": fmt, "file": True, "mode": mode, "code": code, "n0": n0},
+                cls="read-glue:%s:%s" % (fmt, mode))
+        ctx.case((fmt, "file", mode, n0), True, branch="file/%s/%s" % (fmt, mode))
     if not ctx.driver_ok:
         ctx.corr_break("lean driver unavailable: correspondence not run")
         return
